@@ -25,6 +25,7 @@ from sdflit import (
     RoundCone,
     Scene,
     SDFObject,
+    Sphere,
 )
 from tqdm import tqdm
 from typing_extensions import deprecated
@@ -147,7 +148,14 @@ class ToImageStack(Transform[Tree, npt.NDArray[np.uint8]]):
 
         def leave(n: Tree.Node, children: list[Tree.Node]) -> Tree.Node:
             for c in children:
-                sdf = RoundCone(_tp3f(n.xyz()), _tp3f(c.xyz()), n.r, c.r).into()
+                if np.linalg.norm(c.xyz() - n.xyz()) <= abs(n.r - c.r):
+                    # one end sphere contains the other (e.g. coincident
+                    # nodes), the round cone degenerates to that sphere
+                    big = n if n.r >= c.r else c
+                    sdf = Sphere(_tp3f(big.xyz()), big.r).into()
+                else:
+                    sdf = RoundCone(_tp3f(n.xyz()), _tp3f(c.xyz()), n.r, c.r).into()
+
                 scene.add_object(SDFObject(sdf, material).into())
 
             return n
